@@ -41,6 +41,13 @@ impl Rng {
 static CALL_START_MS: AtomicU64 = AtomicU64::new(0);
 static GUARD_DEPTH: AtomicU64 = AtomicU64::new(0);
 static CALL_SEQ: AtomicU64 = AtomicU64::new(1);
+static EXTRA_BUDGET_MS: AtomicU64 = AtomicU64::new(0);
+
+/// Extra time the watchdog grants to the following calls (inputs of several GiB take seconds to
+/// scan even once; that is bounded work, not a hang). 0 resets it.
+pub fn set_extra_budget_ms(ms: u64) {
+    EXTRA_BUDGET_MS.store(ms, Ordering::SeqCst);
+}
 
 /// Panics inside a guarded call are data; panics of the harness itself must be loud.
 pub fn install_panic_hook() {
@@ -107,7 +114,8 @@ pub fn start_watchdog(limit_s: u64) {
             }
             let cpu = cpu_ms().saturating_sub(cpu0);
             let wall = now_ms().saturating_sub(wall0);
-            if cpu > limit_s * 1000 || wall > 30 * limit_s * 1000 {
+            let extra = EXTRA_BUDGET_MS.load(Ordering::SeqCst);
+            if cpu > limit_s * 1000 + extra || wall > 30 * limit_s * 1000 + 4 * extra {
                 eprintln!("WATCHDOG: a call used {} ms of CPU time / {} ms of wall-clock time", cpu, wall);
                 let desc = INFLIGHT.lock().map(|g| g.clone()).unwrap_or_default();
                 let path = HANG_FILE.lock().map(|g| g.clone()).unwrap_or_default();
